@@ -153,8 +153,14 @@ def run(ctx, idx):
                         return True
                     return False if all(v is False for v in vs) else None
                 if isinstance(e, ast.Compare) and len(e.ops) == 1 and _is_dt(e.left, dt_names):
-                    if isinstance(e.ops[0], (ast.In, ast.NotIn)) and isinstance(e.comparators[0], (ast.Tuple, ast.List, ast.Set)):
-                        quals = [idx.qualname(fi.module, x, fi) for x in e.comparators[0].elts]
+                    comp0 = e.comparators[0]
+                    if isinstance(comp0, (ast.Name, ast.Attribute)):
+                        # a module-level constant holding the tuple of types
+                        rr = idx.resolve(fi.module, comp0, fi)
+                        if rr and rr[0] == "const" and isinstance(rr[1].consts.get(rr[2]), (ast.Tuple, ast.List, ast.Set)):
+                            comp0 = rr[1].consts[rr[2]]
+                    if isinstance(e.ops[0], (ast.In, ast.NotIn)) and isinstance(comp0, (ast.Tuple, ast.List, ast.Set)):
+                        quals = [idx.qualname(fi.module, x, fi) for x in comp0.elts]
                         res_ = str(getattr(q, "qual", q)) in quals
                         return res_ if isinstance(e.ops[0], ast.In) else not res_
                     if isinstance(e.ops[0], (ast.Is, ast.Eq)):
